@@ -470,7 +470,7 @@ def run_check(prop, tier="quick", seed=0, replay=None, selftest=False, ncases=No
         n = ncases or prop.sizes(tier)
         cases = load_corpus(prop) + prop.gen(rng, n, tier)
     outs = [safe_impl(prop, c) for c in cases]
-    if selftest and outs:
+    if selftest and outs and not getattr(prop, "_noplant", False):
         prop.plant(cases, outs)
     terms, emit_err = [], []
     for i, (c, o) in enumerate(zip(cases, outs)):
@@ -503,14 +503,16 @@ def run_check(prop, tier="quick", seed=0, replay=None, selftest=False, ncases=No
             spec_hits[i] = sv
 
     nrep = 0
+    known_hits = {}
 
     def report(vclass, what, payload, found):
         nonlocal nrep
         k = match_known(pid, vclass, known)
         if k:
-            line = "KNOWN-FINDING: property=%s %s [%s]" % (pid, k.get("what", what), vclass)
+            line = "KNOWN-FINDING: property=%s %s%s" % (pid, ("[%s] " % k["id"]) if k.get("id") else "", k.get("what", what))
             if line not in lines:
                 lines.append(line)
+            known_hits.setdefault(k.get("id") or k.get("class"), []).append(vclass)
             return
         nrep += 1
         payload = dict(payload)
@@ -592,7 +594,7 @@ def run_check(prop, tier="quick", seed=0, replay=None, selftest=False, ncases=No
             "samples": samples,
             "stages": info["stages"],
             "modelled": prop.modelled,
-            "known_findings_hit": [l for l in lines if l.startswith("KNOWN")],
+            "known_findings_hit": known_hits,
         },
         "assumptions": prop.assumptions,
         "wall_s": round(time.time() - t0, 2),
